@@ -135,6 +135,7 @@ PRELUDE = r"""
 (declare-datatypes ((Slice 0)) (((mkslice (s.arr Int) (s.off Int) (s.len Int) (s.cap Int)))))
 (declare-datatypes ((Any 0)) ((
   (a.nil)
+  (a.ptr (a.ptr.t Int) (a.ptr.v Int))
   (a.int (a.int.t Int) (a.int.v Int))
   (a.bool (a.bool.t Int) (a.bool.v Bool))
   (a.f32 (a.f32.t Int) (a.f32.v (_ FloatingPoint 8 24)))
@@ -144,9 +145,9 @@ PRELUDE = r"""
   (a.time (a.time.t Int) (a.time.v Time))
 )))
 (define-fun a.tid ((x Any)) Int
-  (ite ((_ is a.int) x) (a.int.t x) (ite ((_ is a.bool) x) (a.bool.t x) (ite ((_ is a.f32) x) (a.f32.t x)
+  (ite ((_ is a.ptr) x) (a.ptr.t x) (ite ((_ is a.int) x) (a.int.t x) (ite ((_ is a.bool) x) (a.bool.t x) (ite ((_ is a.f32) x) (a.f32.t x)
   (ite ((_ is a.f64) x) (a.f64.t x) (ite ((_ is a.str) x) (a.str.t x) (ite ((_ is a.slice) x) (a.slice.t x)
-  (ite ((_ is a.time) x) (a.time.t x) 0))))))))
+  (ite ((_ is a.time) x) (a.time.t x) 0)))))))))
 (declare-fun gs.rlen (Str) Int)
 (declare-fun gs.runes (Str) (Array Int Int))
 (define-fun gs.at ((s Str) (i Int)) Int (select (gs.runes s) i))
